@@ -389,7 +389,9 @@ pub fn set_limits() {
     }
 }
 
-const MAX_SHRINK_ITERS: u32 = 600;
+fn max_shrink_iters() -> u32 {
+    std::env::var("VERIF_MAX_SHRINK").ok().and_then(|s| s.parse().ok()).unwrap_or(300)
+}
 
 pub fn worker_main(check: &dyn Check, a: WorkerArgs) {
     set_limits();
@@ -411,6 +413,7 @@ pub fn worker_main(check: &dyn Check, a: WorkerArgs) {
     let phases = check.phases(a.tier);
     let id = check.id();
     let mut samples_emitted;
+    let mut shrunk: std::collections::HashMap<String, u32> = std::collections::HashMap::new();
     for (pi, ph) in phases.iter().enumerate() {
         if (pi as u64) < a.start_phase {
             continue;
@@ -460,10 +463,22 @@ pub fn worker_main(check: &dyn Check, a: WorkerArgs) {
                     let mut best_input = case.input.clone();
                     let mut best_detail = detail.clone();
                     let mut iters = 0;
-                    if ph.max_bytes > 0 && tree.simplify() {
+                    // shrink only the first failures of each signature (the
+                    // parent keeps the smallest input per signature anyway)
+                    let seen = shrunk.entry(sig.clone()).or_insert(0u32);
+                    *seen += 1;
+                    let seen = *seen;
+                    if seen > 40 {
+                        // enough examples of this signature; keep counting only
+                        println!(
+                            "{}",
+                            json!({"t":"fail","phase":ph.name,"index":index,"sig":sig,"detail":"","input":Value::Null,"extra":true})
+                        );
+                    } else {
+                    if seen <= 2 && ph.max_bytes > 0 && tree.simplify() {
                         loop {
                             iters += 1;
-                            if iters > MAX_SHRINK_ITERS {
+                            if iters > max_shrink_iters() {
                                 break;
                             }
                             let b = tree.current();
@@ -490,6 +505,7 @@ pub fn worker_main(check: &dyn Check, a: WorkerArgs) {
                                "original_input": if best_input != case.input { case.input.clone() } else { Value::Null },
                                "shrink_iters":iters})
                     );
+                    }
                 }
             }
             if stats.evals >= 1000 {
@@ -840,10 +856,16 @@ pub fn parent_main(check: &'static dyn Check, tier: Tier, seed: u64) -> i32 {
             continue;
         }
         // keep the smallest input per signature
-        let size = f["input"].to_string().len();
+        if f["extra"].as_bool() == Some(true) && violations.contains_key(&sig) {
+            continue;
+        }
+        let size = if f["input"].is_null() { usize::MAX / 2 } else { f["input"].to_string().len() };
         let replace = violations
             .get(&sig)
-            .map(|old| old["input"].to_string().len() > size)
+            .map(|old| {
+                let osz = if old["input"].is_null() { usize::MAX / 2 } else { old["input"].to_string().len() };
+                osz > size
+            })
             .unwrap_or(true);
         if replace {
             violations.insert(sig, f.clone());
